@@ -3,6 +3,7 @@ package main
 import (
 	"bytes"
 	"fmt"
+	"runtime/debug"
 
 	"github.com/jf-tech/go-corelib/caches"
 
@@ -79,6 +80,15 @@ const c13Ancestor = `{"parser_settings": {"version": "omni.2.1", "file_format_ty
    "t": {"object": {"n": {"xpath": "rec[last()]/qty"}}}}}`
 const c13AncestorInput = `<root><hdr>h</hdr><rec><v>one</v><qty>1</qty></rec><rec><v>two</v><qty>bad</qty></rec><rec><v>three</v><qty>3</qty></rec><rec><v>four</v><qty>x</qty></rec><rec><v>five</v><qty>5</qty></rec></root>`
 
+// predecessors for the pool-history phase: whatever a pooled node carried in its previous life (namespace prefix / URI,
+// JSON type) must be invisible to the next transform that draws it from the pool
+const c13NSXML = `{"parser_settings": {"version": "omni.2.1", "file_format_type": "xml"},
+ "transform_declarations": {"FINAL_OUTPUT": {"xpath": "/x:root/x:rec", "object": {"id": {"xpath": "x:id"}, "q": {"xpath": "x:qty/@x:u"}}}}}`
+const c13NSXMLInput = `<x:root xmlns:x="urn:x"><x:rec x:n="1"><x:id>a</x:id><x:name>n</x:name><x:qty x:u="kg">1</x:qty></x:rec><x:rec><x:id>b</x:id><x:item>i</x:item><x:qty x:u="g">2</x:qty></x:rec><x:rec><x:id>c</x:id><x:sku>s</x:sku><x:sub>t</x:sub></x:rec></x:root>`
+const c13TypedJSON = `{"parser_settings": {"version": "omni.2.1", "file_format_type": "json"},
+ "transform_declarations": {"FINAL_OUTPUT": {"xpath": "/*", "object": {"id": {"xpath": "id"}}}}}`
+const c13TypedJSONInput = `[{"id": 1, "qty": 2.5, "ok": true, "none": null, "tags": [1, 2, 3], "o": {"n": 7, "b": false}}, {"id": 2, "qty": 0, "ok": false, "tags": [4, 5], "o": {"n": 8}}]`
+
 func c13Corpus() ([]*corpusItem, error) {
 	items, err := multiRunCorpus(false)
 	if err != nil {
@@ -140,6 +150,49 @@ func c13Drive(args []string) int {
 		}
 	}
 	var events []interface{}
+	// pool history: each compact item right after a transform of another format, garbage collection held off so that the
+	// pooled nodes of the predecessor are the ones the item draws; pool off is the reference
+	preds := []*corpusItem{
+		{Name: "c13/xml-namespaced", Format: "xml", Schema: []byte(c13NSXML), Input: []byte(c13NSXMLInput)},
+		{Name: "c13/json-typed", Format: "json", Schema: []byte(c13TypedJSON), Input: []byte(c13TypedJSONInput)},
+	}
+	for _, pd := range preds {
+		sch, err, p := newSchema(pd.Schema)
+		if err != nil || p != "" {
+			fmt.Println("error: c13 predecessor schema rejected", pd.Name, err, p)
+			return 3
+		}
+		pd.sch = sch
+	}
+	trNo := len(items)
+	for _, it := range items {
+		if len(it.Input) > 6000 {
+			continue
+		}
+		for _, pd := range preds {
+			if pd.Format == it.Format {
+				continue
+			}
+			trNo++
+			for _, pool := range []bool{false, true} {
+				applyCacheConfig(cacheConfig{Pool: pool, TCache: true, JS: "on", XPath: "default"})
+				old := debug.SetGCPercent(-1)
+				for k := 0; k < 3; k++ { // enough released nodes for every node of the item
+					transcriptOf(pd.sch, bytes.NewReader(pd.Input), 100000)
+				}
+				o := transcriptOf(it.sch, bytes.NewReader(it.Input), 100000)
+				debug.SetGCPercent(old)
+				ev := "golden"
+				if pool {
+					ev = "same"
+					sum.Traces++
+					sum.eval(true, M{"i": it.Name, "p": pd.Name})
+				}
+				events = append(events, M{"ev": ev, "tr": trNo, "item": it.Name, "results": fpAll(o, "full"),
+					"config": fmt.Sprintf("pool=%v right after %s", pool, pd.Name)})
+			}
+		}
+	}
 	for ii, it := range items {
 		events = append(events, M{"ev": "golden", "tr": ii + 1, "item": it.Name, "results": all[0][ii], "config": configs[0].String()})
 		for ci := 1; ci < len(configs); ci++ {
